@@ -6,7 +6,14 @@ fixups pending on one label across 1-4 sections, buffer growth between reference
 Assembler/CodeHolder and judges every reference site with its own per-format field extractor against positions taken from
 offset() snapshots; a shadow count of pending fixups is compared with unresolved_fixup_count() after every API call.
 x86-64 jump programs are additionally executed natively and their marker trace compared with the intended control flow.
-A sample of the sites is re-decoded here by GNU objdump / LLVM (independent of both asmjit and the driver's extractor)."""
+A sample of the sites is re-decoded here by GNU objdump / LLVM (independent of both asmjit and the driver's extractor).
+
+Round 11 additions: a reference refused at emit time is judged (legitimate only when the requested form cannot hold the
+distance or does not exist); one label in four is a named global / local / anonymous label (own ExtraData branch of
+bind_label); labels bound through CodeHolder::bind_label() far beyond the buffer put bound-before references next to the
++2 GiB limit (and every AArch64 limit) without filler; addends at both ends of int32; flatten()+resolve in the middle of a
+program and twice at the end; xbegin, hinted jcc (kPredictedJumps), rex-forced jmp/call, bc.cond, prfm literal; embed_label
+of 1 and 2 bytes with tiny bases."""
 import json
 import re
 import subprocess
@@ -241,6 +248,35 @@ def run(tier, args):
     stats = {}
     cross_check(chk, decode, stats)
 
+    # ---- dimensions that must have observed something (full-size runs only)
+    new_dims = {
+        "refs_rejected_at_emit_judged": "emit-time rejections judged",
+        "refs_rejected_at_emit_form_does_not_exist": "rejections of forms that do not exist (short call, long jecxz/loop)",
+        "refs_verified_on_named-global_labels": "references to named global labels",
+        "refs_verified_on_named-local_labels": "references to named local labels",
+        "refs_verified_on_named-anonymous_labels": "references to named anonymous labels",
+        "far_bound_label_refs_verified_near_limit": "bound-before references next to a forward limit (label bound beyond the buffer)",
+        "far_bound_label_refs_outside_reported_at_emit": "bound-before references just beyond a forward limit, reported at emit",
+        "refs_verified_addend_at_int32_end": "memory operands with an addend at an end of int32, verified",
+        "refs_rejected_at_emit_addend_adjustment_overflows_int32": "addend whose adjustment overflows int32, reported at emit",
+        "intermediate_pass_refs_judged": "references resolved by an intermediate flatten+resolve pass",
+        "refs_verified_emitted_after_intermediate_pass": "references emitted after an intermediate pass",
+        "binds_after_intermediate_pass": "binds after an intermediate pass",
+        "intermediate_pass_programs_with_fixups_left_over": "intermediate passes that left fixups for the final pass",
+        "resolve_again_programs_with_fixups_left_over": "second final resolve passes with unrepresentable fixups remaining",
+        "refs_verified_xbegin": "xbegin",
+        "refs_verified_with_branch_hint_prefix": "jcc with a 2E/3E hint prefix",
+        "refs_verified_with_forced_rex": "jmp/call with a forced REX prefix",
+        "ref_bc.cond": "bc.cond",
+        "refs_verified_prfm-literal": "prfm literal",
+        "refs_verified_embed_label_1_or_2_bytes": "embed_label of 1 or 2 bytes, verified",
+        "refs_embed_label_1_or_2_bytes_reported_by_relocate": "embed_label of 1 or 2 bytes that cannot hold the address, reported",
+    }
+    if not args.replay and not chk.violations and args.scale >= 0.5:
+        dead = ["%s (%s)" % (k, v) for k, v in new_dims.items() if cnt.get(k, 0) == 0]
+        if dead:
+            raise common.HarnessError("dimensions that observed nothing in this run: %s" % "; ".join(dead))
+
     static_classes = sorted(c for c in classes if not c.startswith("exec:"))
     exec_classes = sorted(c for c in classes if c.startswith("exec:"))
     inside = [c for c in static_classes if ":inside" in c]
@@ -281,6 +317,26 @@ def run(tier, args):
         "native_blocks_executed": cnt.get("exec_blocks_run", 0),
         "native_transfers_by_kind": {k[len("exec_transfer_"):]: v for k, v in cnt.items() if k.startswith("exec_transfer_")},
         "references_by_kind": {k[4:]: v for k, v in cnt.items() if k.startswith("ref_")},
+        "emit_rejections": {k[len("refs_rejected_at_emit_"):]: v for k, v in cnt.items() if k.startswith("refs_rejected_at_emit_")},
+        "labels_by_type": {k[len("labels_"):]: v for k, v in cnt.items() if k.startswith("labels_")},
+        "references_verified_on_named_labels": {k[len("refs_verified_on_"):]: v for k, v in cnt.items() if k.startswith("refs_verified_on_")},
+        "labels_bound_beyond_the_buffer": cnt.get("binds_far_beyond_buffer", 0),
+        "far_bound_label_refs": {k[len("far_bound_label_refs_"):]: v for k, v in cnt.items() if k.startswith("far_bound_label_refs_")},
+        "addend_at_int32_end": {"verified": cnt.get("refs_verified_addend_at_int32_end", 0),
+                                "reported_at_emit": cnt.get("refs_rejected_at_emit_addend_adjustment_overflows_int32", 0),
+                                "reported_by_relocate": cnt.get("refs_addend_at_int32_end_reported_by_relocate", 0)},
+        "intermediate_pass": {k[len("intermediate_pass_"):]: v for k, v in cnt.items() if k.startswith("intermediate_pass_")},
+        "after_intermediate_pass": {"references_emitted": cnt.get("refs_emitted_after_intermediate_pass", 0),
+                                    "references_verified": cnt.get("refs_verified_emitted_after_intermediate_pass", 0),
+                                    "binds": cnt.get("binds_after_intermediate_pass", 0)},
+        "resolve_again": {k[len("resolve_again_"):]: v for k, v in cnt.items() if k.startswith("resolve_again_")},
+        "second_flatten_moved_an_empty_section": cnt.get("second_flatten_moved_an_empty_section", 0),
+        "refs_not_judged_layout_moved_after_resolve_pass": cnt.get("refs_not_judged_layout_moved_after_resolve_pass", 0),
+        "variants_verified": {"xbegin": cnt.get("refs_verified_xbegin", 0), "jcc_hint_prefix": cnt.get("refs_verified_with_branch_hint_prefix", 0),
+                              "forced_rex": cnt.get("refs_verified_with_forced_rex", 0), "bc.cond": cnt.get("refs_verified_bc.cond", 0),
+                              "prfm-literal": cnt.get("refs_verified_prfm-literal", 0)},
+        "embed_label_1_or_2_bytes": {"verified": cnt.get("refs_verified_embed_label_1_or_2_bytes", 0),
+                                     "reported_by_relocate": cnt.get("refs_embed_label_1_or_2_bytes_reported_by_relocate", 0)},
         "programs_by_arch": {a: cnt.get("programs_" + a, 0) for a in ("x64", "x86", "a64")},
         "independent_decoders": stats,
         "max_image_bytes": mx.get("max_image_bytes", 0),
@@ -292,8 +348,12 @@ def run(tier, args):
         "Section::offset() after flatten() (cross-checked against our own layout) or our own Section::set_offset() layout",
         "adrp to a label is judged by asmjit's own rule (target - site must be a multiple of 4096, else it has to be reported); "
         "whenever it is accepted the ISA meaning page(site)+imm*4096 == page(target) holds for every 4 KiB aligned base",
-        "a reference rejected at emit time counts as 'reported'; the check does not demand that representable references are accepted "
-        "(rejections of representable forms are counted, e.g. short call / long jecxz)",
+        "a reference rejected at emit time counts as 'reported' only when the requested form cannot hold the distance, when the form does "
+        "not exist (short call, long jecxz/loop) or when the addend of a [rip+label+addend] operand minus the bytes that follow the field "
+        "leaves int32 (documented at the site); any other rejection of a generated (valid) reference is a violation",
+        "labels bound through CodeHolder::bind_label(label, section, offset) beyond the end of the buffer are used on x86-64 and AArch64 "
+        "only (x86-32 distances wrap at 2^32); flatten() run twice may move an EMPTY section by alignment padding (layout of empty sections "
+        "is C10's subject): references resolved with the earlier offsets are judged against those, or not at all when they moved",
         "+-2 GiB inside ONE section (2.3 GB buffers) is only generated in the thorough tier; across sections it is reached in both tiers "
         "through Section::set_offset(); x86-32 images stay below 1 GiB; native execution covers x86-64 only (no x86-32 gate, no AArch64 CPU)",
     ]
